@@ -47,3 +47,9 @@ pub fn pv_firsts<T: Clone, S>(v: &Vec<Vec<(T, S)>>) -> (r: Vec<Vec<T>>)
     v.iter().map(|inner_vec| inner_vec.iter().map(|(a, _)| a.clone()).collect()).collect()
 }
 } // verus!
+
+verus! {
+pub assume_specification<T, U, F: FnOnce(T) -> U>[ Option::<T>::map_or ](o: Option<T>, default: U, f: F) -> (r: U)
+    requires o is Some ==> f.requires((o->Some_0,)),
+    ensures o is None ==> r == default, o is Some ==> f.ensures((o->Some_0,), r);
+} // verus!
